@@ -152,7 +152,10 @@ async fn run(mut sim: Sim, seed: u64, streams: usize) -> Result<Value, String> {
                 sim.run.obs(100, "obs.rpc_call", json!({"nonce": nonce, "to": v, "route": route, "len": body.len(),
                     "digest": sim::digest(&body), "hdigest": sim::headers_digest(&hm), "nheaders": 1,
                     "hsize": req_header_size(&route, &hm), "raw": true}));
-                let (mut tx, mut rx) = conn.open_bi().await.map_err(|e| e.to_string())?;
+                // the hostile peer never ends its connection before the end of the round and the network is
+                // fault-free: a connection that is gone here was ended by the victim
+                let (mut tx, mut rx) = conn.open_bi().await.map_err(|e| format!(
+                    "VIOLATION: the victim ended the hostile peer's connection while that peer kept it open ({e}): a malformed, truncated, reset or abandoned request must affect its own stream only"))?;
                 let run = sim.run.clone();
                 honest.push(tokio::spawn(async move {
                     let r: anyhow::Result<anemo::Response<Bytes>> = async {
@@ -205,6 +208,55 @@ async fn run(mut sim: Sim, seed: u64, streams: usize) -> Result<Value, String> {
             }
             if k % 5 == 0 {
                 settle(&mut sim, rng.gen_range(0..8)).await;
+            }
+        }
+        // complete requests whose handlers take their time, each followed by as much trailing data as
+        // the stream's flow control takes (the streams stay open): whatever piles up behind requests that
+        // are being handled, a further well-formed request on the connection goes through
+        if round == 1 {
+            let mut kept = Vec::new();
+            let mut trailing = 0usize;
+            for _ in 0..12 {
+                if let Ok(Ok((mut tx, rx))) = tokio::time::timeout(Duration::from_secs(5), conn.open_bi()).await {
+                    let req = valid_request("/hostile/slow", &[("hostile", "1"), ("delay-ms", "4000")], b"x");
+                    let _ = tx.write_all(&req).await;
+                    let chunk = vec![0u8; 64 * 1024];
+                    for _ in 0..32 {
+                        match tokio::time::timeout(Duration::from_millis(30), tx.write_all(&chunk)).await {
+                            Ok(Ok(())) => trailing += chunk.len(),
+                            _ => break,
+                        }
+                    }
+                    kept.push((tx, rx));
+                }
+            }
+            sim.run.obs(100, "adv.stream", json!({"class": 23, "len": trailing, "ending": "trailing-data-behind-pending-requests"}));
+            let nonce = sim.nonce();
+            well_formed += 1;
+            let nonce_s = nonce.to_string();
+            let route = format!("/adv{nonce}");
+            let bytes = valid_request(&route, &[("nonce", &nonce_s)], b"after the flood");
+            let mut hm = std::collections::HashMap::new();
+            hm.insert("nonce".to_string(), nonce_s.clone());
+            sim.run.obs(100, "obs.rpc_call", json!({"nonce": nonce, "to": v, "route": route, "len": 15,
+                "digest": sim::digest(b"after the flood"), "hdigest": sim::headers_digest(&hm), "nheaders": 1,
+                "hsize": req_header_size(&route, &hm), "raw": true}));
+            let r: anyhow::Result<anemo::Response<Bytes>> = async {
+                let (mut tx, mut rx) = tokio::time::timeout(Duration::from_secs(5), conn.open_bi()).await??;
+                tx.write_all(&bytes).await?;
+                tx.finish()?;
+                let data = tokio::time::timeout(Duration::from_secs(3), rx.read_to_end(1 << 20)).await??;
+                Ok(anemo::verif::direct::read_response(&Config::default(), &data[..]).await?)
+            }.await;
+            match r {
+                Ok(resp) => sim.run.obs(100, "obs.rpc_result", json!({"nonce": nonce, "ok": true, "status": resp.status().to_u16(),
+                    "len": resp.body().len(), "digest": sim::digest(resp.body()), "hdigest": sim::headers_digest(resp.headers()),
+                    "resp_nonce": resp.headers().get("nonce").and_then(|v| v.parse::<u64>().ok()), "must_succeed": true, "raw": true})),
+                Err(e) => sim.run.obs(100, "obs.rpc_result", json!({"nonce": nonce, "ok": false, "err": format!("no answer within 3 s behind {trailing} bytes of trailing data on 12 pending requests: {e}"), "must_succeed": true})),
+            }
+            for (tx, rx) in kept {
+                std::mem::forget(tx);
+                std::mem::forget(rx);
             }
         }
         settle(&mut sim, 200).await;
